@@ -24,7 +24,7 @@ func registryKeys() string {
 // released one at a time at yield points compiled into the library, every
 // scheduling decision drawn from the tape, plus the immutability monitor.
 func c18Cooperative(t *tape.Tape, tier Tier, res *Result) {
-	cfg := gen.Config{Alpha: gen.Regular, Swarm: true, MaxDepth: 5, MaxNodes: 10, Boost: gen.GMulti | gen.GAnnot, BoostFactor: 2}
+	cfg := gen.Config{Alpha: gen.Regular, Swarm: true, MaxDepth: 5, MaxNodes: 10, Boost: gen.GMulti | gen.GAnnot, BoostFactor: 2, Alias: true}
 	if tier == Thorough {
 		cfg.MaxDepth, cfg.MaxNodes = 6, 16
 	}
